@@ -136,9 +136,10 @@ Definition reserved_names (S : schema) : list string :=
 
 (* the Python parameter of each variable of an operation, as a function of the GraphQL variable name
    (variable names of a valid operation are distinct; for an unknown name: the mangled name) *)
-Definition naming (S : schema) (snake : bool) (vs : list vardef) : string -> string :=
+(* [extra]: further names the method body refers to - since /repo e1c98d1 the operation's result class *)
+Definition naming (S : schema) (snake : bool) (extra : list string) (vs : list vardef) : string -> string :=
   let ks := map v_name vs in
-  let ps := assign (reserved_names S) (map (base_name snake) ks) in
+  let ps := assign (reserved_names S ++ extra) (map (base_name snake) ks) in
   fun x => match assoc x (combine ks ps) with Some p => p | None => base_name snake x end.
 
 (* the serialize function name used for a variable, if any *)
